@@ -124,6 +124,14 @@ CHECKS["C15"] = (
     "DESIGN.md 6/C15",
 )
 
+CHECKS["C16"] = (
+    "exploration",
+    "exhaustive enumeration of synthetic single-column level tables (every single-key restriction; pairs in thorough) x ordering patterns x 6 codec configurations, installed in-process; real encoder then real validator under the same definition",
+    "For every synthetic level definition the encoder must either raise an UnsatisfiableCodecFeaturesError subclass or return a sequence whose serialisation the validator accepts under that same definition.",
+    "Restrictions are derived from the values the unrestricted encoding uses; known finding F8 (eight level keys the encoder never consults) is attributed only to a ValueNotAllowedInLevel rejection on one of those keys; real level tables are exercised by C15 (headers).",
+    "DESIGN.md 6/C16",
+)
+
 NOT_YET = "check not built yet in this revision (planned, see DESIGN.md section 6)"
 
 
